@@ -98,6 +98,7 @@ class Translator:
         self.inline_asts = inline or {}
         self.inline_counter = 0
         self.names = {}            # decl id -> path of the variable (scoped for inlined callees)
+        self.const_tabs = {}       # decl id -> (values, signed, bits) of a local `static const <int> t[N] = {literals}`
         self.fun_inputs = set()    # inputs of type Z -> Z (memory regions)
         self.copies = []
         self.ret_stack = []
@@ -191,6 +192,34 @@ class Translator:
                 return "false"
             return "(negb (%s =? 0))" % z
         raise Unsupported("float in condition")
+
+    def const_table(self, d, t, init):
+        """local `static const <integer type> name[N] = { integer literals }`: the list of values"""
+        if t[0] != "other" or d.get("storageClass") != "static" or not init:
+            return None
+        m = re.fullmatch(r"const ((?:un)?signed )?(char|short|int|long|long long)\[(\d+)\]", t[1].strip())
+        if not m or init[0].get("kind") != "InitListExpr":
+            return None
+        bits = {"char": 8, "short": 16, "int": 32, "long": 64, "long long": 64}[m.group(2)]
+        signed = (m.group(1) or "").strip() != "unsigned"
+        vals = []
+        for e in init[0].get("inner", []):
+            neg = False
+            while e.get("kind") in ("ImplicitCastExpr", "ParenExpr") or (e.get("kind") == "UnaryOperator" and e.get("opcode") == "-"):
+                if e.get("kind") == "UnaryOperator":
+                    neg = not neg
+                e = e["inner"][0]
+            if e.get("kind") != "IntegerLiteral":
+                return None
+            v = int(e["value"])
+            v = -v if neg else v
+            lo, hi = (-(1 << (bits - 1)), 1 << (bits - 1)) if signed else (0, 1 << bits)
+            if not lo <= v < hi:
+                return None
+            vals.append(v)
+        if len(vals) != int(m.group(3)):
+            return None          # partially initialised table: not handled
+        return (vals, signed, bits)
 
     def guard(self, cond, kind):
         ctx = self.ctx
@@ -348,6 +377,17 @@ class Translator:
             return self.read_path(path, n["type"], env)
         if k == "ArraySubscriptExpr" or (k == "UnaryOperator" and n.get("opcode") == "*"):
             base = n["inner"][0]
+            if k == "ArraySubscriptExpr":
+                b0 = base
+                while b0.get("kind") in ("ImplicitCastExpr", "ParenExpr") and b0.get("inner"):
+                    b0 = b0["inner"][0]
+                tab = self.const_tabs.get((b0.get("referencedDecl") or {}).get("id")) if b0.get("kind") == "DeclRefExpr" else None
+                if tab is not None:
+                    # read of a constant lookup table: index checked, value = the literal at that index
+                    vals, sg, bits = tab
+                    idx = self.let(self.as_z(self.expr(n["inner"][1], env)))
+                    self.guard("((0 <=? %s) && (%s <? %d))" % (idx, idx, len(vals)), "OutOfBounds")
+                    return ("z", "(nth (Z.to_nat %s) [%s] 0)" % (idx, "; ".join(str(v) for v in vals)), sg, bits)
             pv = self.expr(base, env)
             if pv[0] == "p" and isinstance(pv[1], Ptr) and not pv[1].direct and region_len_path(pv[1].path):
                 idx = "0"
@@ -792,6 +832,10 @@ class Translator:
                     # uninitialised local struct: its fields are read by access path
                     # ("v.f"); a field read before any write or call yields an arbitrary input
                     self.names[d.get("id")] = self.scope_prefix + d["name"]
+                    continue
+                tab = self.const_table(d, t, init)
+                if tab is not None:
+                    self.const_tabs[d.get("id")] = tab
                     continue
                 if t[0] not in ("int", "ptr", "float"):
                     raise Unsupported("local %s of type %s" % (d["name"], t))
